@@ -53,6 +53,11 @@ from ._store.abstract_workflow_store import (
 
 logger = logging.getLogger(__name__)
 
+# JSON leaves these three characters unescaped, but readers that split lines like
+# str.splitlines (httpx ``Response.aiter_lines``) treat them as line breaks and would cut a
+# ``data:`` line in two. Escaping them keeps the JSON value identical.
+_LINE_SEPARATOR_ESCAPES = {0x85: "\\u0085", 0x2028: "\\u2028", 0x2029: "\\u2029"}
+
 
 async def _http_exception_handler(request: Request, exc: HTTPException) -> JSONResponse:
     return JSONResponse({"detail": exc.detail}, status_code=exc.status_code)
@@ -953,7 +958,9 @@ class _WorkflowAPI:
                     sequence, envelope = cast(
                         tuple[int, EventEnvelopeWithMetadata], item
                     )
-                    payload = envelope.model_dump_json()
+                    payload = envelope.model_dump_json().translate(
+                        _LINE_SEPARATOR_ESCAPES
+                    )
                     if sse:
                         yield f"id: {sequence}\ndata: {payload}\n\n"
                     else:
